@@ -11,6 +11,8 @@
 #include <stdint.h>
 #include <stddef.h>
 #include "contracts/coding.h"
+#include "table/block.h"
+#include "table/format.h"
 
 /* length of the LEB128 group sequence starting at p when only n bytes are
  * available and a varint32 has at most 5 groups; 0 = no terminator in reach.
@@ -41,8 +43,34 @@
   ((q) == (p) + BLK_HLEN(p, n) && (s) == BLK_H_SHARED(p, n) && (ns) == BLK_H_NONSHARED(p, n) && (vl) == BLK_H_VALUELEN(p, n)) : (q) == NULL)
 
 /* ---- block trailer (ldb_block_init) ----
- * well-formed trailer: size >= 4, n = LE32(data+size-4), n <= (size-4)/4  */
-#define BLK_NRESTARTS(d, sz) LE32_AT((d) + (sz) - 4)
-#define BLK_TRAILER_OK(d, sz) ((sz) >= 4 && (size_t)BLK_NRESTARTS(d, sz) <= ((sz) - 4) / 4)
+ * well-formed trailer: size >= 4, n = LE32(data+size-4), 4*(1+n) <= size     */
+#define BLK_NRESTARTS(d, sz) LE32_AT((d) + ((sz) - 4))
+#define BLK_TRAILER_OK(d, sz) ((sz) >= 4 && (uint64_t)BLK_NRESTARTS(d, sz) <= ((uint64_t)(sz) - 4) / 4)
+/* b = block after init; (d, sz, heap) = the contents handed in.
+ * bad trailer => error marker size = 0 (and restart_offset = 0);
+ * good trailer => size kept and restart_offset + 4*(1+n) == size EXACTLY (no
+ * 32-bit wrap of (1+n)*4, no truncation of the offset). */
+#define POST_BLOCK_INIT_FIELDS(b, d, heap) ((b)->data == (d) && (b)->owned == (heap))
+#define POST_BLOCK_INIT_BAD(b, d, sz) (BLK_TRAILER_OK(d, sz) || ((b)->size == 0 && (b)->restart_offset == 0))
+#define POST_BLOCK_INIT_GOOD(b, d, sz) (!BLK_TRAILER_OK(d, sz) || ((b)->size == (sz) && \
+  (uint64_t)(b)->restart_offset + 4 * (1 + (uint64_t)BLK_NRESTARTS(d, sz)) == (uint64_t)(sz)))
+/* Block representation invariant established by a successful init (what the iterator relies on) */
+#define BLK_RI(b) ((b)->size == 0 || ((b)->size >= 4 && \
+  (uint64_t)(b)->restart_offset + 4 * (1 + (uint64_t)BLK_NRESTARTS((b)->data, (b)->size)) == (uint64_t)(b)->size))
+
+#ifndef VERIF_NATIVE
+/* The offset field is 32 bits wide: the exact equation can only hold for
+ * blocks below 4 GiB.  (A larger block keeps only the low 32 bits of the
+ * offset - see unit blk.init_huge.) */
+void c_block_init(ldb_block_t *block, const ldb_contents_t *contents)
+__CPROVER_requires(__CPROVER_w_ok(block, sizeof(*block)) && __CPROVER_r_ok(contents, sizeof(*contents)))
+__CPROVER_requires(contents->data.size == 0 || __CPROVER_r_ok(contents->data.data, contents->data.size))
+__CPROVER_requires(contents->data.size <= 0xffffffffu)
+__CPROVER_assigns(block->data, block->size, block->restart_offset, block->owned)
+__CPROVER_ensures(POST_BLOCK_INIT_FIELDS(block, contents->data.data, contents->heap_allocated))
+__CPROVER_ensures(POST_BLOCK_INIT_BAD(block, contents->data.data, contents->data.size))
+__CPROVER_ensures(POST_BLOCK_INIT_GOOD(block, contents->data.data, contents->data.size))
+;
+#endif
 
 #endif
